@@ -56,7 +56,16 @@ def main(argv=None) -> int:
             case = json.load(open(a.replay))
             mod.replay(rep, case)
         else:
-            mod.run(rep)
+            try:
+                mod.run(rep)
+            except tlc.MachineryError:
+                raise
+            except Exception as e:  # noqa: BLE001
+                # the self-tests (canaries) need an accepted execution to corrupt; when the code under test is so broken that
+                # none is left, the violations already recorded are the verdict -- report them instead of a machinery failure
+                if not rep.violations:
+                    raise
+                rep.extra["self_test_skipped"] = f"{type(e).__name__}: {e} (after {len(rep.violations)} violations)"
         rc = rep.finish()
     except tlc.MachineryError as e:
         print(f"MACHINERY FAILURE [{a.pid}]: {e}", file=sys.stderr)
